@@ -3,6 +3,7 @@ package props
 // C16 — generated schema fits the data: required columns, shared-table union, unique key.
 
 import (
+	"os"
 	"encoding/json"
 	"fmt"
 	"strings"
@@ -248,6 +249,7 @@ func c16Property(rt *rapid.T, ev *evid.Rec) {
 		if rowsPer[p.Key()] == 0 {
 			continue
 		}
+		recorded := pairRows(w.db.Rows("shovel.task_updates"), p.Src.Name, p.Decl.Name)
 		if err := w.db.Exec(fakepgDelCursor, p.Src.Name, p.Decl.Name, bigZero()); err != nil {
 			rt.Fatalf("VERIF-INCONCLUSIVE cannot reset position: %v", err)
 		}
@@ -263,9 +265,64 @@ func c16Property(rt *rapid.T, ev *evid.Rec) {
 			rt.Fatalf("VERIF-VIOLATION property=C16 re-inserting the blocks of %s (%d rows) did not collide with the generated unique key: rows are now duplicated (%d)\n indexes: %+v\n %s", p.Key(), rowsPer[p.Key()], len(w.TableRows(p)), w.db.TableIndexes(p.Decl.Table), desc())
 		}
 		collided = true
+		// (the positions are put back for what follows)
+		for _, r := range recorded {
+			if err := w.db.InsertRow("shovel.task_updates", r); err != nil {
+				rt.Fatalf("VERIF-INCONCLUSIVE cannot restore position: %v", err)
+			}
+		}
+	}
+	// rows that can be told apart and collide when written again: no row may hold NULL in a
+	// column of the generated key (NULLs never collide in a unique index)
+	keyNulls := func(when string) {
+		for _, p := range w.Pairs {
+			for _, ix := range w.db.TableIndexes(p.Decl.Table) {
+				if !ix.Unique || ix.Name != "u_"+p.Decl.Table {
+					continue
+				}
+				for _, r := range w.TableRows(p) {
+					for _, c := range ix.Cols {
+						if r[c] == nil {
+							rt.Fatalf("VERIF-VIOLATION property=C16 %s: %s stored a row with NULL in %s, a column of the generated unique key %v: such a row never collides with a re-insert\n row: %v\n %s", when, p.Key(), c, ix.Cols, r, desc())
+						}
+					}
+				}
+			}
+		}
+	}
+	keyNulls("after indexing the chain")
+	// a log that carries the event's topics and no data (any contract can emit one): refused or
+	// stored, but never stored without its place in the key
+	emptyData := false
+	for _, d := range decls {
+		if d.Kind() != "log" || !strings.HasSuffix(identitySig(d), "+abi_idx") || emptyData || rapid.IntRange(0, 2).Draw(rt, "emptydatalog") != 0 {
+			continue
+		}
+		emptyData = true
+		vals := gen.GenEventValues(rt, d.Event, co.Values)
+		topics, _ := d.Event.LogOf(vals)
+		tx := gen.GenTx(rt, co)
+		tx.Logs = append(tx.Logs, sim.Log{Addr: append([]byte{}, pool.Addrs[0]...), Topics: topics, Event: d.Event, Vals: vals, Kind: "decoy-emptydata"})
+		node.Lock()
+		node.Chain.Append([]sim.Tx{tx})
+		node.Unlock()
+		for _, p := range w.Pairs {
+			if p.Decl.Name == d.Name {
+				for i := 0; i < 2; i++ {
+					r := w.Step(p)
+					if os.Getenv("C16DBG") != "" {
+						fmt.Printf("C16DBG %s %s err=%s cursor %s->%s rows=%d\n", p.Key(), r.Outcome(), errString(r.Err), curStr(r.Before), curStr(r.After), len(w.TableRows(p)))
+					}
+					if r.Panic != nil {
+						rt.Fatalf("VERIF-VIOLATION property=C16 Converge panicked on a log without data: %v\n %s", r.Panic, desc())
+					}
+				}
+			}
+		}
+		keyNulls("after a log with the event's topics and no data")
 	}
 	nontrivial := shared || preexisting
-	ev.Case(nontrivial, desc()+fmt.Sprint(rowsPer), fmt.Sprintf("shared=%v", shared), fmt.Sprintf("preexisting=%v", preexisting), fmt.Sprintf("userIndex=%v", userIndex), fmt.Sprintf("identityColumnWithoutBlockEntry=%v", columnOnly), fmt.Sprintf("collisionChecked=%v", collided))
+	ev.Case(nontrivial, desc()+fmt.Sprint(rowsPer), fmt.Sprintf("emptyDataLog=%v", emptyData), fmt.Sprintf("shared=%v", shared), fmt.Sprintf("preexisting=%v", preexisting), fmt.Sprintf("userIndex=%v", userIndex), fmt.Sprintf("identityColumnWithoutBlockEntry=%v", columnOnly), fmt.Sprintf("collisionChecked=%v", collided))
 	if excluded {
 		ev.Excluded(1)
 	}
